@@ -24,7 +24,9 @@ RULE = ("class drawn from the 85 concrete kit classes and generic module/vector 
         "rotated. Assemblies: a vector class with 1-4 modules, each participant "
         "independently valid / corrupted / random / of another kit / with an extra "
         "site, record ids drawn from a pool with braces, percent signs, spaces, "
-        "quotes, non-ASCII letters and the empty id. Oracle: is_valid() "
+        "quotes, non-ASCII letters and the empty id. Also complete generated chains "
+        "over all enzymes with an optional leftover module, ids from the same pool "
+        "and up to four letters replaced by N/n. Oracle: is_valid() "
         "returns exactly True or False and never raises; when False, overhang_start, "
         "overhang_end, target_sequence (vectors: placeholder_sequence) each raise "
         "errors.InvalidSequence; assemble returns a CircularRecord or raises a "
@@ -84,6 +86,47 @@ def typing(cname, word):
     return ok
 
 
+def check_chain(spec, ctx):
+    """A complete generated chain (plus an optional leftover module), record ids
+    from the odd pool, some letters replaced by N/n: product or MoClo error."""
+    from Bio.Seq import Seq
+    from moclo import errors
+    from moclo.record import CircularRecord
+    a = spec["assembly"]
+    e, g, bv, bms, M, V = plasmid.build_assembly(a, fresh_classes=True)
+    builts = [bv] + bms
+    if spec.get("leftover"):
+        builts.append(plasmid.build_module(g, dict(spec["leftover"], id="leftover")))
+    ids = spec.get("ids") or ["x"]
+    seqs = []
+    for i, b in enumerate(builts):
+        s = list(b.seq)
+        for (who, pos, ch) in spec.get("subst") or []:
+            if who % len(builts) == i:
+                s[pos % len(s)] = ch
+        seqs.append("".join(s))
+    recs = [CircularRecord(Seq(s), id=ids[i % len(ids)], name="n") for i, s in enumerate(seqs)]
+    vent = V(recs[0])
+    ments = [M(r) for r in recs[1:]]
+    order = list(a["order"]) + list(range(len(bms), len(ments)))
+    with warnings.catch_warnings(record=True):
+        warnings.simplefilter("always")
+        try:
+            res = vent.assemble(*[ments[i] for i in order])
+            out = "product"
+            if not isinstance(res, CircularRecord):
+                raise Violation("ASSEMBLE-RESULT", "assemble returned %s" % type(res).__name__)
+        except errors.MocloError as ex:
+            out = type(ex).__name__
+        except Violation:
+            raise
+        except Exception as ex:  # noqa
+            raise _violation("assemble of a generated chain (ids %r, substitutions %r)"
+                             % (ids, spec.get("subst")), ex)
+    ctx.note(spec, bool(spec.get("subst")) or ids != ["x"],
+             ["chain:" + out] + (["chain:with-leftover"] if spec.get("leftover") else []))
+
+
 def check(spec, ctx):
     from moclo import errors
     from moclo.record import CircularRecord
@@ -93,6 +136,8 @@ def check(spec, ctx):
                  ["style:" + spec.get("style", "?"), "valid" if ok else "invalid"])
         return
     ids = spec.get("ids") or ["x"]
+    if spec["kind"] == "chain":
+        return check_chain(spec, ctx)
     vcls, vent = _entity(spec["vector"][0], spec["vector"][1], ids[0])
     ments = [_entity(c, w, ids[(i + 1) % len(ids)])[1] for i, (c, w) in enumerate(spec["modules"])]
     flags = []
@@ -196,10 +241,28 @@ def _assembly_specs(draw):
     return spec
 
 
+@st.composite
+def _chain_specs(draw):
+    a = draw(plasmid.assembly_spec(max_chain=4, max_seg=20))
+    g = dna.geometry(dna.enzyme_by_name(a["enzyme"]))
+    spec = {"kind": "chain", "assembly": a,
+            "ids": draw(st.lists(st.sampled_from(ODD_IDS), min_size=1, max_size=6))}
+    if draw(st.integers(0, 2)):
+        lo = draw(plasmid.module_body(g, 12))
+        lo["o5"], lo["o3"] = draw(gen.dna_text(g.k, g.k)), draw(gen.dna_text(g.k, g.k))
+        spec["leftover"] = lo
+    if draw(st.booleans()):
+        spec["subst"] = draw(st.lists(st.tuples(st.integers(0, 5), st.integers(0, 300),
+                                                st.sampled_from("NNNn")), min_size=1, max_size=4))
+        spec["subst"] = [list(x) for x in spec["subst"]]
+    return spec
+
+
 def strategies(tier):
     kit = kits.kit_class_names()
     gen_names = [n for n in _class_names() if n.startswith("gen:")]
     q = tier == "quick"
     return {"kit": (_typing_specs(kit), 1200 if q else 40000),
             "generic": (_typing_specs(gen_names), 800 if q else 25000),
-            "assembly": (_assembly_specs(), 300 if q else 8000)}
+            "assembly": (_assembly_specs(), 300 if q else 8000),
+            "chain": (_chain_specs(), 300 if q else 8000)}
